@@ -4,15 +4,21 @@ import (
 	sdk "github.com/cosmos/cosmos-sdk/types"
 
 	clienttypes "github.com/teleport-network/teleport/x/xibc/core/client/types"
+	"github.com/teleport-network/teleport/x/xibc/core/host"
 	"github.com/teleport-network/teleport/x/xibc/exported"
 )
 
-// ExportMetadata exports all the processed times in the client store so they can be included in clients genesis
-// and imported by a ClientKeeper
+// ExportMetadata exports all the processed times and iteration keys in the client store so they can be included
+// in clients genesis and imported by a ClientKeeper
 func (cs ClientState) ExportMetadata(store sdk.KVStore) []exported.GenesisMetadata {
 	gm := make([]exported.GenesisMetadata, 0)
 	IterateProcessedTime(store, func(key, val []byte) bool {
 		gm = append(gm, clienttypes.NewGenesisMetadata(key, val))
+		return false
+	})
+	// the iteration keys are what pruning walks: without them an imported client never prunes
+	IterateConsensusStateAscending(store, func(height exported.Height) bool {
+		gm = append(gm, clienttypes.NewGenesisMetadata(IterationKey(height), host.ConsensusStateKey(height)))
 		return false
 	})
 	if len(gm) == 0 {
